@@ -19,7 +19,7 @@ RULE = (
     "tier, boundary and recent years in quick) x positions start/middle/end x every target calendar frequency; each "
     "enumerated period is a distinct non-trivial case (round trips of six representations and containment of every "
     "conversion are compared with datetime/calendar); hyp_pairs: Hypothesis pairs of nearby periods for monotonicity "
-    "and batch conversion, non-trivial iff the pair straddles a month end / leap day / year boundary"
+    "and batch conversion (lists, tuples, generators and iterators of strings), non-trivial iff the pair straddles a month end / leap day / year boundary"
 )
 
 ASSUMPTIONS = [
@@ -56,6 +56,9 @@ def _roundtrips(p, f, col, ir, tag, where):
     col.check(len(q) == 2 and _same(p, q[0]) and _same(p, q[1]), f"{tag}:periods_from_sdmx_strings", lambda: f"{where}: {q!r}")
     q = api(f"{tag}:periods_from_sdmx_strings_with_freq", ir.periods_from_sdmx_strings, (s,), F)
     col.check(len(q) == 1 and _same(p, q[0]), f"{tag}:periods_from_sdmx_strings", lambda: f"{where}: {q!r}")
+    # (the argument is declared Iterable[str]: a one-shot iterator is the same request as a list)
+    q = api(f"{tag}:periods_from_sdmx_strings_iterator", ir.periods_from_sdmx_strings, (x for x in (s,)))
+    col.check(len(q) == 1 and _same(p, q[0]), f"{tag}:periods_from_sdmx_strings_iterator", lambda: f"{where}: generator of one string -> {q!r}")
     # repr
     r = repr(p)
     q = api(f"{tag}:eval_repr", eval, r, {"yy": ir.yy, "hh": ir.hh, "qq": ir.qq, "mm": ir.mm, "dd": ir.dd, "ii": ir.ii})
@@ -290,6 +293,11 @@ def _check_pair(case):
     strs = [a.to_sdmx_string(), b.to_sdmx_string()]
     back = api(f"{tag}:periods_from_sdmx_strings", ir.periods_from_sdmx_strings, strs)
     col.check(list(back) == [a, b], f"{tag}:batch_sdmx", lambda: f"{strs} -> {back!r}")
+    back = api(f"{tag}:periods_from_sdmx_strings_iterator", ir.periods_from_sdmx_strings, iter(strs))
+    col.check(list(back) == [a, b], f"{tag}:batch_sdmx_iterator", lambda: f"iter({strs}) -> {back!r}")
+    back = api(f"{tag}:periods_from_iso_strings_iterator", ir.periods_from_iso_strings,
+               (x.to_iso_string(position=pos) for x in (a, b)), frequency=ir.Frequency(case["a"]["f"]))
+    col.check(list(back) == [a, b], f"{tag}:batch_iso_iterator", lambda: f"generator of ISO strings of {a!r}, {b!r} -> {back!r}")
     span = ir.Span(min(a, b), max(a, b))
     if len(span) <= 50:
         sd = api(f"{tag}:span_to_sdmx_strings", span.to_sdmx_strings)
